@@ -126,7 +126,12 @@ def run_sequence(cfg, ops):
 # independent oracle: the property text, as plain loops over the observed states
 def m3(st):
     b, n = st['bounds'], st['psd']
-    return sum(n[i] * ((b[i] + b[i + 1]) / 2) ** 3 for i in range(min(len(n), len(b) - 1)))
+    return math.fsum(n[i] * ((b[i] + b[i + 1]) / 2) ** 3 for i in range(min(len(n), len(b) - 1)))
+
+
+# "preserves the third moment exactly": in binary64 the rescaling leaves a few units in the last place per class
+# (quotient, product, the implementation's own summation of <= 1000 classes); the oracle sums exactly (fsum)
+M3_RTOL = 1e-12
 
 
 def consistent(st):
@@ -225,7 +230,7 @@ def oracle_step(pre, op, post, ret, err, extra):
     remeshed = (k == 'Change' and not op['reset']) or (k == 'Adjust' and ret is not None and ret[0] and ret[1] is None)
     if remeshed and covers(pre, post):
         a, b_ = m3(pre), m3(post)
-        if abs(a - b_) > 1e-9 * max(abs(a), abs(b_)):
+        if abs(a - b_) > M3_RTOL * max(abs(a), abs(b_)):
             cls = 'populated range covered, new PSD empty' if b_ == 0 else 'populated range covered'
             v.append(('remesh_third_moment', cls,
                       're-meshing %d classes on [%r, %r] to %d classes on [%r, %r] changed the third moment from %r to %r'
@@ -313,6 +318,29 @@ def gen_psd(rng, st, dyadic):
     return [float(x) for x in q]
 
 
+def gen_step_result(rng, st, dyadic):
+    """what UpdatePBMEuler is handed: the distribution after an explicit step.  An unlimited step (user iterator,
+    step above the stability bound of the smallest classes) over-draws classes, rounding leaves residues: a third
+    of the arrays carry negative entries (tiny residues, large over-draws, -0.0, an all-negative array)"""
+    q = gen_psd(rng, st, dyadic)
+    n = len(q)
+    u = rng.random()
+    if n == 0 or u < 0.62:
+        return q
+    idx = rng.choice(n, int(rng.integers(1, min(n, 4) + 1)), replace=False)
+    kind = rng.choice(['residue', 'overdraw', 'mixed', 'negzero', 'all'], p=[0.3, 0.3, 0.25, 0.05, 0.1])
+    for i in idx:
+        if kind == 'residue' or (kind == 'mixed' and rng.random() < 0.5):
+            q[i] = -float(rng.choice([2.0 ** -20, 2.0 ** -40, 0.5, 0.25])) if dyadic else -float(10 ** rng.uniform(-12, -0.1))
+        elif kind in ('overdraw', 'mixed'):
+            q[i] = -float(rng.choice([1, 2, 1.5, 1024, 2.0 ** 40])) if dyadic else -float(10 ** rng.uniform(0, 12))
+        elif kind == 'negzero':
+            q[i] = -0.0
+    if kind == 'all':
+        q = [-abs(x) - (1.0 if dyadic else float(10 ** rng.uniform(-6, 6))) for x in q]
+    return q
+
+
 def gen_op(rng, st, dyadic, quick):
     """an inconsistent state (only reachable when the code under test is broken) must not stop the
     generator: fall back to argument-free operations"""
@@ -343,7 +371,7 @@ def gen_op_(rng, st, dyadic, quick):
     if k == 'Adjust':
         return {'op': k, 'chk': bool(rng.random() < 0.6)}
     if k == 'Update':
-        return {'op': k, 'newN': gen_psd(rng, st, dyadic)}
+        return {'op': k, 'newN': gen_step_result(rng, st, dyadic)}
     if k == 'LoadFn':
         return {'op': k, 'vals': gen_psd(rng, st, dyadic)}
     if k == 'Add':
@@ -364,28 +392,45 @@ def gen_op_(rng, st, dyadic, quick):
         N = gen_psd(rng, st, dyadic)
         w = [float(x) for x in (rng.integers(0, 5, n).astype(float) if dyadic else rng.uniform(0, 3, n))]
         return {'op': k, 'N': N, 'w': w, 'order': int(rng.integers(0, 5)), 'alt': []}
-    # Change
+    # Change.  A grid is (minimum, maximum, class count): every subset of the three is kept while the others change
+    # (each of the 8 combinations has its share), so that anything the code derives from only part of the grid
+    # (a cache key, a "nothing changed" shortcut) meets a grid that agrees on that part and differs elsewhere.
     b = st['bounds']
-    if dyadic:
-        cmin = float(rng.choice([st['min'], 0, 1, 2, 0.5, b[int(rng.integers(0, n))]]))
-        cmax = float(rng.choice([st['max'], b[int(rng.integers(1, n + 1))], 8, 16, 24, 40, 2 * st['max']]))
+    keep_min, keep_max, keep_n = bool(rng.random() < 0.5), bool(rng.random() < 0.45), bool(rng.random() < 0.4)
+    if keep_min:
+        cmin = st['min']
+    elif dyadic:
+        cmin = float(rng.choice([0, 1, 2, 0.5, 4, b[int(rng.integers(0, n))], st['min'] / 2, st['min'] + 1]))
     else:
-        cmin = float(rng.choice([st['min'], st['min'] * rng.uniform(0.3, 1.5), b[int(rng.integers(0, n))], 0.0],
-                                p=[0.45, 0.3, 0.2, 0.05]))
-        cmax = float(rng.choice([st['max'], b[int(rng.integers(1, n + 1))], st['max'] * rng.uniform(0.5, 3.0), cmin * 2],
-                                p=[0.4, 0.25, 0.25, 0.1]))
+        cmin = float(rng.choice([st['min'] * rng.uniform(0.3, 1.5), b[int(rng.integers(0, n))], 0.0], p=[0.55, 0.35, 0.1]))
+    if keep_max:
+        cmax = st['max']
+        if 10 * cmin > cmax:                          # the maximum is max(10 cMin, cMax): keep it really
+            cmin = float(rng.choice([0.0, st['max'] / 16, st['max'] / 32])) if dyadic else float(st['max'] / 10 * rng.uniform(0.05, 0.999))
+    elif dyadic:
+        cmax = float(rng.choice([b[int(rng.integers(1, n + 1))], 8, 16, 24, 40, 2 * st['max'], st['max'] / 2, st['max'] + 1]))
+    else:
+        cmax = float(rng.choice([b[int(rng.integers(1, n + 1))], st['max'] * rng.uniform(0.5, 3.0), cmin * 2], p=[0.4, 0.45, 0.15]))
+    nudge = rng.random() < 0.18
+    if nudge:
+        # range moved by a relative 1e-13 .. 1e-3, class count kept or nearly kept: the re-binning changes the third
+        # moment by about that much, and the rescaling has to remove it all the same
+        eps = lambda: float(rng.choice([-1, 1])) * (2.0 ** -int(rng.integers(10, 44)) if dyadic else float(10 ** rng.uniform(-13, -3)))
+        cmin = st['min'] * (1 + eps()) if rng.random() < 0.5 else st['min']
+        cmax = st['max'] * (1 + eps()) if (rng.random() < 0.8 or cmin == st['min']) else st['max']
+        keep_n = bool(rng.random() < 0.8)
     if not (cmin > 0 or cmax > cmin):
         cmax = cmin + 1.0
-    u = rng.random()
-    if u < 0.25:
-        nb = None                                   # bins argument left at its default: class count kept
-    elif u < 0.4:
-        nb = int(rng.choice([n, st['obins']]))      # explicitly the current / the initial class count
+    if keep_n:
+        u = rng.random()
+        nb = None if u < 0.55 else n if u < 0.85 else st['obins']   # default argument / explicitly the current / the initial count
+    elif nudge:
+        nb = max(1, n + int(rng.choice([-2, -1, 1, 2])))
     else:
         nb = int(rng.choice([1, 2, 3, int(rng.integers(1, 41)), st['minBins'], st['maxBins'], max(1, n // 3), min(cap, 2 * n)]))
     if nb is not None and nb > cap:
         nb = cap
-    return {'op': k, 'cmin': cmin, 'cmax': cmax, 'nb': nb, 'reset': bool(rng.random() < 0.1)}
+    return {'op': k, 'cmin': float(cmin), 'cmax': float(cmax), 'nb': nb, 'reset': bool(rng.random() < 0.1)}
 
 
 def gen_sequence(rng, quick, length):
@@ -394,11 +439,92 @@ def gen_sequence(rng, quick, length):
     dyadic = cfg['kind'] == 'dyadic'
     p = new_pbm(cfg)
     trace = []
+    grid_changed = False
     for _ in range(length):
         pre = snap(p)
-        op = gen_op(rng, pre, dyadic, quick)
+        if grid_changed and rng.random() < 0.3:
+            # moment functions right after the grid moved: they must use the grid of NOW, whatever was evaluated before
+            try:
+                n = pre['bins']
+                op = {'op': 'Moments', 'N': gen_psd(rng, pre, dyadic), 'order': int(rng.integers(0, 5)), 'alt': [],
+                      'w': [float(x) for x in (rng.integers(0, 5, n).astype(float) if dyadic else rng.uniform(0, 3, n))]}
+            except Exception:
+                op = gen_op(rng, pre, dyadic, quick)
+        else:
+            op = gen_op(rng, pre, dyadic, quick)
+        op2, ret, err, extra = apply_op(p, op)
+        post = snap(p)
+        grid_changed = pre['bounds'] != post['bounds']
+        trace.append((pre, op2, post, ret, err, extra))
+    return cfg, trace
+
+
+def gen_fine_sequence(rng, quick):
+    """Grids whose classes are narrow compared with the radius of the populated classes (150 - 600 classes, particles
+    in the upper part of the grid): there the re-binning alone changes the third moment by only 1e-7 .. 1e-4, so that the
+    exactness of the re-mesh rests entirely on the rescaling.  Manual refinements / coarsenings / range changes and the
+    automatic route (last class fills, grid is extended beyond maxBins and coarsened to minBins; dissolution refinement).
+    Too large for a per-step execution in Coq within the quick tier: the independent oracle decides on all of them, a few
+    of the smaller steps are also compared with the model."""
+    kind = str(rng.choice(['manual', 'adaptive', 'chain']))
+    bins = int(rng.choice([150, 200, 300, 400, 500] if quick else [150, 200, 300, 400, 500, 600, 800]))
+    if kind == 'adaptive':
+        mb = int(rng.choice([bins // 2, (3 * bins) // 4, bins]))
+        xb = bins + int(rng.integers(0, bins // 5 + 1))
+    else:
+        mb, xb = int(rng.choice([100, bins // 2])), bins + int(rng.integers(0, 200))
+    cmin = float(rng.choice([1e-10, 5e-10, 0.0, 1.0]))
+    cmax = (1e-8 if cmin < 1 else 100.0) * float(rng.choice([1, 2, 0.5]))
+    cfg = {'kind': 'fine', 'cMin': cmin, 'cMax': cmax, 'bins': bins, 'minBins': max(2, mb), 'maxBins': max(2, mb, xb)}
+    p = new_pbm(cfg)
+    trace = []
+
+    def do(op):
+        pre = snap(p)
         op2, ret, err, extra = apply_op(p, op)
         trace.append((pre, op2, snap(p), ret, err, extra))
+
+    def top_psd(last_filled):
+        n = p.bins
+        c = np.asarray(p.PSDsize)
+        q = np.zeros(n)
+        lo = int(n * rng.uniform(0.55, 0.9))
+        hi = n if last_filled else max(lo + 1, int(n * rng.uniform(0.9, 0.99)))
+        shape = str(rng.choice(['flat', 'ramp', 'peak', 'single']))
+        k = np.arange(lo, hi)
+        if shape == 'flat':
+            q[lo:hi] = 10 ** rng.uniform(1, 12)
+        elif shape == 'ramp':
+            q[lo:hi] = 10 ** rng.uniform(1, 12) * (1 + (k - lo) * rng.uniform(0.01, 1))
+        elif shape == 'peak':
+            mid, wd = 0.5 * (lo + hi), max(1.0, 0.2 * (hi - lo))
+            q[lo:hi] = 10 ** rng.uniform(3, 12) * np.exp(-((k - mid) / wd) ** 2)
+            q[q < 1] = 0
+        else:
+            q[int(rng.integers(lo, hi))] = 10 ** rng.uniform(1, 12)
+        if last_filled:
+            q[-1] = max(q[-1], 5.0)
+        return [float(x) for x in q]
+
+    if rng.random() < 0.3:
+        do({'op': 'SetAdaptive', 'a': bool(rng.random() < 0.5)})
+    steps = 1 if kind == 'manual' else int(rng.integers(2, 5)) if kind == 'adaptive' else int(rng.integers(3, 7))
+    for _ in range(steps):
+        if p.bins > 1600:
+            break
+        if kind == 'adaptive':
+            diss = rng.random() < 0.25
+            do({'op': 'Update', 'newN': top_psd(not diss) if not diss else
+                [float(x) for x in np.where(np.arange(p.bins) < max(1, p.minBins // 4), 10 ** rng.uniform(1, 6), 0.0)]})
+            do({'op': 'Adjust', 'chk': bool(diss or rng.random() < 0.3)})
+        else:
+            if not trace or rng.random() < 0.6 or not any(x > 0 for x in trace[-1][2]['psd']):
+                do({'op': 'LoadFn', 'vals': top_psd(False)} if rng.random() < 0.5 else {'op': 'Update', 'newN': top_psd(False)})
+            n = p.bins
+            nb = int(rng.choice([2 * n, n // 2, n, n + int(rng.integers(-n // 10, n // 10 + 1)), int(n * rng.uniform(0.4, 2.5))]))
+            nb = max(50, min(nb, 1500))
+            cmx = float(p.max * rng.choice([1.0, 1.0, 1.1, 1.5, 2.0, float(1 + 10 ** rng.uniform(-9, -2))]))
+            do({'op': 'Change', 'cmin': float(p.min), 'cmax': cmx, 'nb': None if nb == n and rng.random() < 0.5 else nb, 'reset': False})
     return cfg, trace
 
 
@@ -630,7 +756,7 @@ def nontrivial_step(pre, op, post):
         or op['op'] in ('Update', 'LoadFn', 'LoadHist', 'Moments')
 
 
-def explore(ctx, seqs, label):
+def explore(ctx, seqs, label, ship=None, shard=None):
     """correspondence (per step, in Coq) + oracle on a batch of executed sequences.
     seqs: list of (cfg, trace).  returns (disagreements, oracle hits)"""
     terms, where = [], []
@@ -643,7 +769,7 @@ def explore(ctx, seqs, label):
             ctx.count({'cfg': hexcfg(cfg), 'pre': [hexf(x) for x in pre['psd'] + pre['bounds']], 'op': hexop(op)},
                       nontrivial_step(pre, op, post))
             ctx.hist('operation', op['op'])
-            ctx.hist('classes', '1' if pre['bins'] == 1 else '2-3' if pre['bins'] <= 3 else '4-16' if pre['bins'] <= 16 else '17-64' if pre['bins'] <= 64 else '>64')
+            ctx.hist('classes', '1' if pre['bins'] == 1 else '2-3' if pre['bins'] <= 3 else '4-16' if pre['bins'] <= 16 else '17-64' if pre['bins'] <= 64 else '65-149' if pre['bins'] < 150 else '150-1600')
             ctx.hist('adaptive', pre['adaptive'])
             if moved_same_count(pre):
                 ctx.hist('initial_class_count_on_moved_grid', op['op'] + (':reset' if op.get('rb') or op.get('reset') else ''))
@@ -660,9 +786,12 @@ def explore(ctx, seqs, label):
             if not (finite_state(pre) and finite_state(post)):
                 dis_all.append((cfg, ops[:ti + 1], 'non-finite value in the state after %s' % op['op']))
                 continue
+            if ship is not None and not ship(pre, op, post):
+                ctx.notes['oracle_only_steps'] = ctx.notes.get('oracle_only_steps', 0) + 1
+                continue
             terms.append(step_term(pre, op, post, ret, err, extra))
             where.append((si, ti))
-    res = ctx.coq_eval('steps_' + label, HEADER, terms, shard=max(4, min(60, -(-len(terms) // 32))), timeout=1500)
+    res = ctx.coq_eval('steps_' + label, HEADER, terms, shard=shard or max(4, min(60, -(-len(terms) // 32))), timeout=1500) if terms else []
     ties = set()
     for (si, ti), r in zip(where, res):
         cfg, trace = seqs[si]
@@ -737,7 +866,7 @@ def run(ctx):
                        'binary64 arithmetic) or physical (1e-10 m scale), populations zero / single class / log-normal / sparse / huge '
                        'range / near the threshold 1 / low classes only / last class filled; a third of the configurations start with bins == minBins or bins == maxBins and 40 % of the re-meshes keep the current / initial class count, followed by reset paths; one evaluation = one operation compared '
                        'with the model; non-trivial = acts on a populated distribution, changes the grid or loads a distribution; '
-                       'distinct by hash of (configuration, exact pre-state, exact operation)')
+                       'distinct by hash of (configuration, exact pre-state, exact operation); arrays given to Update carry negative entries in a third of the cases (residues, over-draws); 18 % of the re-meshes move the range by a relative 1e-13 .. 1e-3 only; 14 (quick) / 60 extra sequences on fine grids of 150 - 1600 classes populated in their upper part (manual re-meshes, chains, automatic extension + coarsening / refinement) are decided by the oracle, two of their smaller re-meshes also by the model')
     axioms, failed = ctx.prove(['C08/Properties.v'])
     # corpus first
     corpus = []
@@ -750,6 +879,20 @@ def run(ctx):
         seqs.append(gen_sequence(ctx.rng, quick, L))
     dis, found, ties = explore(ctx, seqs, 'main')
     dis += explore_runs(ctx, seqs, 'main', ties)
+    # fine grids (150 - 1600 classes): oracle on every step, the model on a few of the smaller re-meshes
+    fine = [gen_fine_sequence(ctx.rng, quick) for _ in range(14 if quick else 60)]
+    budget = [2 if quick else 8]
+
+    def ship_fine(pre, op, post):
+        if op['op'] in ('Change', 'Adjust') and pre['bins'] + post['bins'] <= (300 if quick else 500) and budget[0] > 0 \
+                and any(x > 0 for x in pre['psd']):
+            budget[0] -= 1
+            return True
+        return False
+    dis_f, found_f, _ = explore(ctx, fine, 'fine', ship=ship_fine, shard=1)
+    dis += dis_f
+    found += found_f
+    seqs += fine
     for cfg, trace in seqs[:3] + seqs[len(corpus):len(corpus) + 2]:
         ctx.sample({'cfg': {k: cfg[k] for k in ('kind', 'cMin', 'cMax', 'bins', 'minBins', 'maxBins')},
                     'operations': [readable({k: (v if not isinstance(v, list) or len(v) <= 6 else v[:6] + ['...'])
